@@ -52,6 +52,10 @@ PROPS['C02'] = dict(
                 quick=dict(MaxOps=4, MaxRestarts=2, MaxMerges=1), thorough=dict(MaxOps=5, MaxRestarts=2))],
     traces=[dict(profile='restart', spec='EngineTrace',
                  enforce=['open', 'vals', 'keys', 'fold', 'statkeys', 'scan', 'index'],
+                 quick_seeds=1, thorough_seeds=1),
+            # restarts that adopt a merge (hint path) and the restart after it, keys up to 40 000 bytes
+            dict(profile='merge', spec='EngineTrace',
+                 enforce=['open', 'vals', 'keys', 'fold', 'statkeys', 'scan', 'index'],
                  quick_seeds=1, thorough_seeds=1)],
     assumptions=E_ASSUME + ['end offsets 1..7 of a block (and 1..11 of block 0) are unreachable through DB.Put and are not swept'],
 )
@@ -114,7 +118,7 @@ PROPS['C06'] = dict(
     level='model_checking',
     mc=[xixi_mc('MC_Merge', ['MapSemantics', 'QuiescentLiveEqualsRecovered', 'RecoveredOK', 'NeverFails', 'AccountingExact'],
                 properties=['MergeDirGone', 'AdoptedDirIsMinimal'], Features='{"batch", "merge", "restart", "delete"}',
-                quick=dict(MaxOps=4, MaxMerges=2, MaxRestarts=2, Limit=2), thorough=dict(MaxOps=5, MaxMerges=2, MaxRestarts=2, Limit=2))],
+                quick=dict(MaxOps=3, MaxMerges=2, MaxRestarts=2, Limit=2), thorough=dict(MaxOps=5, MaxMerges=2, MaxRestarts=2, Limit=2))],
     traces=[dict(profile='merge', spec='EngineTrace',
                  enforce=['res', 'bres', 'open', 'vals', 'keys', 'fold', 'scan', 'index', 'nomdir', 'adopted', 'statkeys'],
                  quick_seeds=1, thorough_seeds=2)],
